@@ -14,6 +14,8 @@ use std::{
     time::Duration,
 };
 
+mod bld;
+
 use actix_server::verif::{self as v, AcceptHandle, Cmd, Listener, MioStream, Stepped, WorkerEnd, Wq};
 
 // ---------------------------------------------------------------------------------------------
@@ -572,6 +574,11 @@ fn main() {
         let line = line.unwrap();
         match mode.as_str() {
             "avail" => writeln!(outw, "{}", avail_case(&line)).unwrap(),
+            "bld" => {
+                let r = catch_unwind(AssertUnwindSafe(|| bld::run(&line, &dir, n))).unwrap_or_else(|_| "HARNESS_PANIC".into());
+                writeln!(outw, "{r}").unwrap();
+                outw.flush().unwrap();
+            }
             "srv" => {
                 // each case on its own thread: an accept loop that never returns (spin) is abandoned
                 let out = Arc::new(Mutex::new(String::new()));
